@@ -435,7 +435,8 @@ SORT_LOOP_INV = ("__CPROVER_assigns(i, __CPROVER_object_whole(new_ritz_val), __C
                  "ntag_conv[g_j] == S->tag_conv[g_ib] && new_ritz_conv[g_j] == S->m_ritz_conv[g_ib] && NANEQ(new_ritz_val[g_j], g_vb))) "
                  "__CPROVER_decreases(S->m_nev - i)")
 
-NANEQ_DEF = "#define NANEQ(a, b) (((b) != (b)) ? ((a) != (a)) : ((a) == (b)))   /* a is a bit-copy of b, NaN-aware */\n"
+NANEQ_DEF = ("#if defined(SCALAR_FLOAT)\n#define FSIGN(x) __CPROVER_signf(x)\n#elif defined(SCALAR_LDOUBLE)\n#define FSIGN(x) __CPROVER_signld(x)\n#else\n#define FSIGN(x) __CPROVER_signd(x)\n#endif\n"
+             "#define NANEQ(a, b) (((b) != (b)) ? ((a) != (a)) : ((a) == (b) && FSIGN(a) == FSIGN(b)))   /* a is a copy of b: NaN-aware, zero-sign-aware */\n")
 
 SORT_RULES_HERM = ["LargestAlge", "LargestMagn", "SmallestAlge", "SmallestMagn"]
 
@@ -1132,4 +1133,154 @@ def f_eigenvectors(gen, report):
     f = X.locate(hdr, "eigenvectors", cls=cls, params_re=r"^\s*$")
     if " ".join(f.body.split()) != "return eigenvectors(m_nev);":
         raise X.ExtractionBreak("%s::eigenvectors() no longer forwards eigenvectors(m_nev)" % cls)
+    return t, spec
+
+
+# =========================================================================== general (nonsymmetric) family
+
+def stub_sort_complex():
+    """Call-site contract of `SortEigenvalue<Complex, Rule> sorting(evals.data(), n); sorting.swap(ind);`: the
+    constructor contract proved in C18 (ctor.iota+sort.complex / ctor.order.complex) with the documented complex keys
+    (key.complex.* groups)."""
+    from props import C18
+    L = ["#define INSTANTIATE_RANGE(ind, e, len) __CPROVER_assume(!(0 <= (e) && (e) < (len)) || (0 <= (ind).data[e] && (ind).data[e] < (len)))",
+         "#define INSTANTIATE_COLTAG(M, e) __CPROVER_assume(!(0 <= (e) && (e) < (M).cols) || (M).coltag[e] == (e))",
+         "Index g_ia, g_ib; Complex g_va, g_vb;   /* witnesses: ind[g_i], ind[g_j], values[ind[g_i]], values[ind[g_j]] */",
+         "IndexArray sort_complex(SortRule rule, const Complex *values, Index len) {",
+         '  __CPROVER_assert(0 <= len && len <= VEC_SIZE(values), "precondition of SortEigenvalue at call site: values[0..len) is a valid range");',
+         '  __CPROVER_assert(%s, "precondition of SortEigenvalue at call site: rule defined for complex values");' %
+         " || ".join("rule == SortRule_%s" % r for r in C18.DOC_CPLX),
+         "  IndexArray ret; ret.size = len; ret.data = IVEC_NEW(len);",
+         "  if (0 <= g_i && g_i < len) { __CPROVER_assume(0 <= ret.data[g_i] && ret.data[g_i] < len); g_ia = ret.data[g_i]; g_va = values[g_ia]; }",
+         "  if (0 <= g_j && g_j < len) { __CPROVER_assume(0 <= ret.data[g_j] && ret.data[g_j] < len); g_ib = ret.data[g_j]; g_vb = values[g_ib]; }",
+         "  if (0 <= g_i && g_i < len && 0 <= g_j && g_j < len && g_i != g_j) __CPROVER_assume(g_ia != g_ib);",
+         "  if (0 <= g_i && g_i < g_j && g_j < len && CNOTNAN(g_va) && CNOTNAN(g_vb)) {",
+         "    Complex va = g_va, vb = g_vb;"]
+    for r, d in C18.DOC_CPLX.items():
+        cond = d.replace("x", "XX").replace("y", "YY").replace("XX", "vb").replace("YY", "va")
+        L.append("    __CPROVER_assume(!(rule == SortRule_%s) || !(%s));" % (r, cond))
+    L += ["  }", "  return ret;", "}"]
+    return "\n".join(L) + "\n"
+
+
+GEN_DEFS = r'''
+#define CNOTNAN(z) ((z).re == (z).re && (z).im == (z).im && CABS(z) == CABS(z))
+#define NOTNAN(z) CNOTNAN(z)
+#define CNANEQ(a, b) (NANEQ((a).re, (b).re) && NANEQ((a).im, (b).im))
+Index g_p;
+'''
+
+
+def gen_switch_rules(arr, n, ncases=6):
+    """`SortEigenvalue<Complex, SortRule::X> sorting(ARR.data(), N); sorting.swap(ind);` in each case of the rule switch."""
+    return [
+        ("ind-decl", r"std::vector<Index> ind;", "IndexArray ind; ind.data = NULL; ind.size = 0;", {"max": 1}),
+        ("sorter", r"SortEigenvalue<Complex, SortRule_(\w+)> sorting\(%s\.data\(\), %s\);\s*sorting\.swap\(ind\);" % (re.escape(arr), re.escape(n)),
+         r"ind = sort_complex(SortRule_\1, %s, %s);" % (arr, n), {"min": ncases, "max": ncases}),
+        ("case-consistent", r"case SortRule_(\w+):\s*\{\s*ind = sort_complex\(SortRule_(\w+),",
+         lambda m: m.group(0) if m.group(1) == m.group(2) else "case SortRule_%s: { RULE_DISPATCH_MISMATCH(); ind = sort_complex(SortRule_%s," % (m.group(1), m.group(2)),
+         {"min": ncases, "max": ncases}),
+    ]
+
+
+def f_retrieve_ritzpair_gen(report):
+    extra = accessor_rules(report) + [
+        ("decomp", r"UpperHessenbergEigen<Scalar> decomp\(S->m_fac\.m_fac_H\);", "EigDecomp decomp = EIGEN_DECOMP(&S->m_fac.m_fac_H);", {"max": 1}),
+        ("evals", r"const ComplexVector& evals = decomp\.eigenvalues\(\);", "const Complex *evals = decomp.evals;", {"max": 1}),
+        ("evecs", r"ComplexMatrix evecs = decomp\.eigenvectors\(\);", "Mat evecs = decomp.evecs; S->st_ritz = decomp.stamp;", {"max": 1}),
+    ] + gen_switch_rules("evals", "S->m_ncv") + [
+        ("ind[]", r"\bind\[", "ind.data[", {"min": 3, "max": 3}),
+        ("val-copy", r"S->m_ritz_val\[(\w+)\] = evals\[([^;]+)\];", r"INSTANTIATE_RANGE(ind, \1, S->m_ncv); S->m_ritz_val[\1] = evals[\2]; S->tag_val[\1] = (\2);", {"max": 1}),
+        ("est-copy", r"S->m_ritz_est\[(\w+)\] = evecs\(([^;]+?),\s*([^;,]+)\);",
+         r"S->m_ritz_est[\1].re = *MAT_ELEM(&evecs, \2, \3); S->m_ritz_est[\1].im = nondet_Scalar(); S->tag_est[\1] = ((\2) == evecs.rows - 1) ? (\3) : -1;", {"max": 1}),
+        ("vec-copy", r"S->m_ritz_vec\.col\((\w+)\)\.noalias\(\) = evecs\.col\(([^;]+)\);",
+         r"INSTANTIATE_RANGE(ind, \1, S->m_ncv); INSTANTIATE_COLTAG(evecs, \2); COLCOPY(S->m_ritz_vec, \1, evecs, \2);", {"max": 1}),
+    ]
+    inv1 = ("__CPROVER_assigns(i, __CPROVER_object_whole(S->m_ritz_val), __CPROVER_object_whole(S->m_ritz_est), __CPROVER_object_whole(S->tag_val), __CPROVER_object_whole(S->tag_est), evecs.cell) "
+            "__CPROVER_loop_invariant(0 <= i && i <= S->m_ncv) "
+            "__CPROVER_loop_invariant(!(0 <= g_i && g_i < i) || (S->tag_val[g_i] == g_ia && S->tag_est[g_i] == g_ia && CNANEQ(S->m_ritz_val[g_i], g_va))) "
+            "__CPROVER_loop_invariant(!(0 <= g_j && g_j < i) || (S->tag_val[g_j] == g_ib && S->tag_est[g_j] == g_ib && CNANEQ(S->m_ritz_val[g_j], g_vb))) "
+            "__CPROVER_decreases(S->m_ncv - i)")
+    inv2 = ("__CPROVER_assigns(i, __CPROVER_object_whole(S->m_ritz_vec.coltag)) "
+            "__CPROVER_loop_invariant(0 <= i && i <= S->m_nev) "
+            "__CPROVER_loop_invariant(!(0 <= g_i && g_i < i) || S->m_ritz_vec.coltag[g_i] == g_ia) "
+            "__CPROVER_loop_invariant(!(0 <= g_j && g_j < i) || S->m_ritz_vec.coltag[g_j] == g_ib) "
+            "__CPROVER_decreases(S->m_nev - i)")
+    both = "0 <= g_i && g_i < g_j && g_j < S->m_ncv"
+    post = [("value, estimate (and vector column, for wanted ones) at position i come from the same eigenpair of the decomposition",
+             "!(0 <= g_i && g_i < S->m_ncv) || (S->tag_val[g_i] == S->tag_est[g_i] && 0 <= S->tag_val[g_i] && S->tag_val[g_i] < S->m_ncv && (g_i >= S->m_nev || S->m_ritz_vec.coltag[g_i] == S->tag_val[g_i]))"),
+            ("distinct positions hold distinct eigenpairs (a permutation of the decomposition)", "!(%s) || S->tag_val[g_i] != S->tag_val[g_j]" % both),
+            ("Ritz data stamped with the fresh decomposition", "S->st_ritz == g_clock"), ("one clock tick", "g_clock == old_clock + 1")]
+    for r, cl in ordered_clause("", gen=True):
+        post.append(("wanted-first order by the selection rule %s: no later Ritz value strictly precedes an earlier one" % r,
+                     "!(%s && CNOTNAN(S->m_ritz_val[g_i]) && CNOTNAN(S->m_ritz_val[g_j])) || verif_ordered_%s(selection, S->m_ritz_val[g_i], S->m_ritz_val[g_j])" % (both, r)))
+    spec = FSpec("retrieve_ritzpair", "void", [("Solver *", "S"), ("SortRule", "selection")],
+                 pre=[("Ritz arrays hold ncv entries", "VEC_SIZE(S->m_ritz_val) == S->m_ncv && VEC_SIZE(S->m_ritz_est) == S->m_ncv && VEC_SIZE(S->tag_val) == S->m_ncv && VEC_SIZE(S->tag_est) == S->m_ncv"),
+                      ("projected matrix is ncv x ncv, Ritz vector matrix ncv x nev", "S->m_fac.m_fac_H.rows == S->m_ncv && S->m_fac.m_fac_H.cols == S->m_ncv && S->m_ritz_vec.rows == S->m_ncv && S->m_ritz_vec.cols == S->m_nev"),
+                      ("1 <= nev, nev + 2 <= ncv", "1 <= S->m_nev && S->m_nev + 2 <= S->m_ncv && S->m_ncv <= NMAX"),
+                      ("clock bounded", "0 <= g_clock && g_clock <= 4 * CAP")],
+                 post=post,
+                 exc_post=[("unsupported selection rule or failed decomposition: invalid_argument / runtime_error; clock at most one tick", "old_clock <= g_clock && g_clock <= old_clock + 1")],
+                 frame=["S->st_ritz", "g_clock", "g_ia", "g_ib", "g_va", "g_vb"],
+                 frame_objs=["S->m_ritz_val", "S->m_ritz_est", "S->tag_val", "S->tag_est", "S->m_ritz_vec.coltag"],
+                 may_throw=[1, 2], olds=[("Index", "old_clock", "g_clock")], real=GB + ":retrieve_ritzpair")
+    t = emit_solver_fn(GB, "GenEigsBase", "retrieve_ritzpair", "retrieve_ritzpair", report, ret_c="void", extra=extra,
+                       loops={0: inv1, 1: inv2}, contract=spec.frame_contract(), maythrow=["EIGEN_DECOMP"])
+    ordf = "".join("static _Bool verif_ordered_%s(SortRule selection, Complex va, Complex vb) { return %s; }\n" % (r, cl)
+                   for r, cl in ordered_clause("", gen=True))
+    return ordf + t, spec
+
+
+def f_sort_ritzpair_gen(report):
+    spec = sort_spec(True, GB)
+    rules = gen_switch_rules("S->m_ritz_val", "S->m_nev") + [r for r in SORT_LOCALS_RULES if r[0] not in ("argsort",)]
+    loop = SORT_LOOP_INV.replace("NANEQ(new_ritz_val[g_i], g_va)", "CNANEQ(new_ritz_val[g_i], g_va)").replace("NANEQ(new_ritz_val[g_j], g_vb)", "CNANEQ(new_ritz_val[g_j], g_vb)")
+    t = emit_solver_fn(GB, "GenEigsBase", "sort_ritzpair", "sort_ritzpair", report, ret_c="void", extra=rules,
+                       loops={0: loop}, contract=spec.frame_contract())
+    ordf = "".join("static _Bool verif_sorted_%s(SortRule selection, Complex va, Complex vb) { return %s; }\n" % (r, cl)
+                   for r, cl in ordered_clause("", gen=True))
+    return ordf + t, spec
+
+
+QR_STUBS_GEN = r'''
+static void QR_compute_ds(QRDecomp *d, Mat *H, Scalar s, Scalar t)
+{
+  (void)s; (void)t;
+  if (H->rows != H->cols) { verif_exc = EXC_invalid_argument; return; }
+  __CPROVER_assert(H->rows >= 3 || 1, "DoubleShiftQR size");
+  d->n = H->rows; d->computed = 1;
+}
+#define CNORM(z) ((z).re * (z).re + (z).im * (z).im)
+#define RULE_DISPATCH_MISMATCH() __CPROVER_assert(0, "rule switch: case label and SortEigenvalue rule template argument agree")
+'''
+
+
+def f_restart_gen(report, retrieve_post):
+    spec = restart_spec(True, retrieve_post)
+    spec.pre = [c for c in spec.pre if "restart size" not in c[0]] + [
+        ("restart size in [1, ncv-1] (result of nev_adjusted)", "1 <= k && k <= S->m_ncv - 1")]
+    extra = accessor_rules(report) + [
+        ("using-norm", r"\busing std::norm;", "", {"min": 0}),
+        ("decomp_ds", r"DoubleShiftQR<Scalar> (\w+)\(([^;]+)\);", r"QRDecomp \1; \1.n = (\2); \1.computed = 0; \1.nshift = 2;", {"max": 1}),
+        ("decomp_hb", r"UpperHessenbergQR<Scalar> (\w+)\(([^;]+)\);", r"QRDecomp \1; \1.n = (\2); \1.computed = 0; \1.nshift = 1;", {"max": 1}),
+        ("Q", r"Matrix Q = Matrix::Identity\(([^;]+)\);", r"Mat Q = MAT_NEW(\1); g_shift_lo = k; g_shift_n = 0; g_shifts_applied = 0;", {"max": 1}),
+        ("is_complex", r"(?<![\w>])is_complex\(", "is_complex(", {"min": 1}),
+        ("s", r"const Scalar s = \(\(Scalar\)\(2\)\) \* S->m_ritz_val\[i\]\.real\(\);", "const Scalar s = ((Scalar)(2)) * S->m_ritz_val[i].re;", {"max": 1}),
+        ("t", r"const Scalar t = norm\(S->m_ritz_val\[i\]\);", "const Scalar t = CNORM(S->m_ritz_val[i]);", {"max": 1}),
+        ("compute_ds", r"decomp_ds\.compute\(S->m_fac\.m_fac_H, s, t\);", "QR_compute_ds(&decomp_ds, &S->m_fac.m_fac_H, s, t);", {"max": 1}),
+        ("compute_hb", r"decomp_hb\.compute\(S->m_fac\.m_fac_H, S->m_ritz_val\[i\]\.real\(\)\);", "QR_compute(&decomp_hb, &S->m_fac.m_fac_H, S->m_ritz_val[i].re);", {"max": 1}),
+        ("apply_YQ", r"(decomp_ds|decomp_hb)\.apply_YQ\(Q\);", r"QR_apply_YQ(&\1, &Q);", {"min": 2, "max": 2}),
+        ("compress_H_ds", r"S->m_fac\.compress_H\(decomp_ds\);", "compress_H_ds(&S->m_fac, &decomp_ds); g_shifts_applied += 2;", {"max": 1}),
+        ("compress_H_hb", r"S->m_fac\.compress_H\(decomp_hb\);", "compress_H_hb(&S->m_fac, &decomp_hb); g_shifts_applied += 1;", {"max": 1}),
+        ("compress_V", r"S->m_fac\.compress_V\(Q\);", "g_shift_n = g_shifts_applied; compress_V(&S->m_fac, Q);", {"max": 1}),
+        ("factorize", r"S->m_fac\.factorize_from\(([^;]+), S->m_nmatop\);", r"factorize_from(&S->m_fac, \1, &S->m_nmatop);", {"max": 1}),
+        ("retrieve", r"(?<![\w>])retrieve_ritzpair\(selection\);", "retrieve_ritzpair(S, selection);", {"max": 1}),
+    ]
+    inv = ("__CPROVER_assigns(i, decomp_ds, decomp_hb, Q.cell, g_shifts_applied, verif_exc, S->m_fac.m_k, S->m_fac.g_valid_k, S->m_fac.m_fac_H.rows, S->m_fac.m_fac_H.cols, S->m_fac.m_fac_H.cell) "
+           "__CPROVER_loop_invariant(k <= i && i <= S->m_ncv && verif_exc == 0 && g_shifts_applied == i - k && S->m_fac.m_k == S->m_ncv - (i - k) && "
+           "S->m_fac.m_fac_H.rows == S->m_ncv && S->m_fac.m_fac_H.cols == S->m_ncv && (i == k || S->m_fac.g_valid_k == 0)) "
+           "__CPROVER_decreases(S->m_ncv - i)")
+    t = emit_solver_fn(GB, "GenEigsBase", "restart", "restart", report, ret_c="void", extra=extra, loops={0: inv},
+                       contract=spec.frame_contract(),
+                       maythrow=["QR_compute_ds", "QR_compute", "QR_apply_YQ", "compress_H_ds", "compress_H_hb", "compress_V", "factorize_from", "retrieve_ritzpair"])
     return t, spec
